@@ -230,7 +230,7 @@ pub fn invariant(s: &Screen, snap: &Snap) -> Option<String> {
     if !(s.cursor.x <= s.columns) {
         return Some(format!("cursor.x={} with columns={}", s.cursor.x, s.columns));
     }
-    if let Some(m) = s.margins {
+    if let Some(m) = s.margins.as_ref() {
         if !(m.top < m.bottom && m.bottom <= s.lines - 1) {
             return Some(format!("margins ({},{}) with lines={}", m.top, m.bottom, s.lines));
         }
